@@ -258,10 +258,14 @@ func c07Shapes() []c07Shape {
 			},
 			model: func(w [][]strategy.Action, _ []float64, _ float64) []strategy.Action { return splitModel(w[0], w[1]) }},
 		c07Shape{name: "inverse", k: 1,
-			build: func(subs []strategy.Strategy, _ float64) strategy.Strategy { return decorator.NewInverseStrategy(subs[0]) },
+			build: func(subs []strategy.Strategy, _ float64) strategy.Strategy {
+				return decorator.NewInverseStrategy(subs[0])
+			},
 			model: func(w [][]strategy.Action, _ []float64, _ float64) []strategy.Action { return inverseModel(w[0]) }},
 		c07Shape{name: "noloss", k: 1,
-			build: func(subs []strategy.Strategy, _ float64) strategy.Strategy { return decorator.NewNoLossStrategy(subs[0]) },
+			build: func(subs []strategy.Strategy, _ float64) strategy.Strategy {
+				return decorator.NewNoLossStrategy(subs[0])
+			},
 			model: func(w [][]strategy.Action, c []float64, _ float64) []strategy.Action { return noLossModel(w[0], c) },
 			safe:  func(out []strategy.Action, c []float64, _ float64) string { return noLossSafe(out, c) }},
 		c07Shape{name: "stoploss", k: 1,
@@ -324,6 +328,26 @@ func c07Shapes() []c07Shape {
 			model: func(w [][]strategy.Action, c []float64, _ float64) []strategy.Action {
 				return voteModel("majority", [][]strategy.Action{voteModel("or", w[:2], len(c)), w[2], splitModel(w[0], w[2])}, len(c))
 			}},
+		// the same instance listed more than once: every listed member has a vote
+		c07Shape{name: "majority(s0,s0,s1)", k: 2,
+			build: func(subs []strategy.Strategy, _ float64) strategy.Strategy {
+				return strategy.NewMajorityStrategyWith("majority", []strategy.Strategy{subs[0], subs[0], subs[1]})
+			},
+			model: func(w [][]strategy.Action, c []float64, _ float64) []strategy.Action {
+				return voteModel("majority", [][]strategy.Action{w[0], w[0], w[1]}, len(c))
+			}},
+		c07Shape{name: "or(s0,s1,s0)", k: 2,
+			build: func(subs []strategy.Strategy, _ float64) strategy.Strategy {
+				return strategy.NewOrStrategy("or", subs[0], subs[1], subs[0])
+			},
+			model: func(w [][]strategy.Action, c []float64, _ float64) []strategy.Action {
+				return voteModel("or", [][]strategy.Action{w[0], w[1], w[0]}, len(c))
+			}},
+		c07Shape{name: "split(s0,s0)", k: 1,
+			build: func(subs []strategy.Strategy, _ float64) strategy.Strategy {
+				return strategy.NewSplitStrategy(subs[0], subs[0])
+			},
+			model: func(w [][]strategy.Action, c []float64, _ float64) []strategy.Action { return splitModel(w[0], w[0]) }},
 		c07Shape{name: "noloss(and/k2)", k: 2,
 			build: func(subs []strategy.Strategy, _ float64) strategy.Strategy {
 				return decorator.NewNoLossStrategy(strategy.NewAndStrategy("and", subs...))
@@ -444,12 +468,25 @@ func c07(ctx *run.Ctx) {
 				for i := range closes {
 					closes[i] *= unit
 				}
+				pct := cc.R.PickF(0.01, 0.05, 0.2)
+				// closes that sit EXACTLY on the stop level of an earlier close (as
+				// float64 evaluates purchase x (1 - percentage)), one ulp above and below
+				if strings.Contains(sh.name, "stoploss") {
+					for i := 2; i < n; i++ {
+						if cc.R.Intn(6) == 0 {
+							level := closes[cc.R.Range(0, i-1)] * (1 - pct)
+							closes[i] = []float64{level, math.Nextafter(level, 0), math.Nextafter(level, math.Inf(1))}[cc.R.Intn(3)]
+						}
+					}
+				}
 				shape := sh
 				if k != sh.k {
 					kind := map[byte]string{'a': "and", 'o': "or", 'm': "majority"}[sh.name[0]]
-					shape.model = func(w [][]strategy.Action, c []float64, _ float64) []strategy.Action { return voteModel(kind, w, len(c)) }
+					shape.model = func(w [][]strategy.Action, c []float64, _ float64) []strategy.Action {
+						return voteModel(kind, w, len(c))
+					}
 				}
-				if !c07Run(cc, shape, words, closes, cc.R.PickF(0.01, 0.05, 0.2)) {
+				if !c07Run(cc, shape, words, closes, pct) {
 					return
 				}
 				cc.Distinct(fmt.Sprintf("%s/rand/%d", sh.name, rep))
